@@ -8,7 +8,6 @@ KEYSETS = [[], [0], [1], [0, 1], [4], [0, 4]]
 
 def gen_script(rng, max_ops, max_threads):
     T = rng.pick([0, 1, 2, 3, max_threads]) if max_threads > 0 else 0
-    T = min(T, MAXTHREADS - 1)
     lines = ['maxthreads %d' % MAXTHREADS, 'threads %d' % max(T, 1)]
     for p in rng.pick([[0, 1, 4], [1, 0, 4], [4, 0, 1]]):
         lines.append('reg %d' % p)
